@@ -76,3 +76,16 @@ package block
 //@   binds-accept b.PrevHash, b.CreationDate, b.Round, b.RoundRandomSeed, b.StateChangesCount
 //@   ensures[repeated-transaction-rejected] b.TxnsMap != nil && len(b.Txns) != len(b.TxnsMap) ==> result != nil
 //@   ensures[hash-required] b.Hash == "" ==> result != nil
+
+// ComputeProperties (run on every decoded block before it is validated) builds the transaction
+// lookup map that Validate's repeated-transaction check compares with the transaction list: after a
+// successful run the map exists, holds the hash of every listed transaction (that it holds nothing else - so that a list
+// repeating a transaction is strictly longer than the map - is not proved: existential witness).
+//@ func (*Block).ComputeProperties
+//@   prop C29
+//@   requires b != nil && held(b.mutexTxns) == 0 && rheld(b.mutexTxns) == 0 && (forall i in 0..len(b.Txns) :: b.Txns[i] != nil)
+//@   ensures[transaction-map-built] result == nil && b.Txns != nil ==> b.TxnsMap != nil && (forall i in 0..len(b.Txns) :: b.Txns[i].Hash in b.TxnsMap)
+//@   lock-balanced b.mutexTxns
+//@   loop 1 header "for _, txn := range b.Txns"
+//@   loop 1 invariant b.TxnsMap != nil && held(b.mutexTxns) == 1
+//@   loop 1 invariant forall i in 0..$idx+1 :: b.Txns[i].Hash in b.TxnsMap
